@@ -2,21 +2,25 @@
 (* pac/pool.go (C14): a sync.Pool of single-threaded JavaScript VMs.  A caller Gets a  *)
 (* VM (an idle one or a freshly created one), evaluates FindProxyForURL on it in       *)
 (* several steps (the script may keep VM-global state across them) and Puts it back.   *)
-(* sync.Pool may also drop idle VMs at any time.                                        *)
+(* sync.Pool may also drop idle VMs at any time.  The pool is a BAG: nothing stops a   *)
+(* caller from putting the same VM twice, after which two callers can get it.  An      *)
+(* evaluation may fail (script throws / wrong result type) - the VM is still put back  *)
+(* exactly once, and the failure is the caller's own answer.                           *)
 EXTENDS Integers, FiniteSets, TLC
 
 CONSTANTS Callers, VMs, MaxCalls,
-          PutEarly      \* mutant: the VM is returned to the pool before the evaluation has finished
+          PutEarly,     \* mutant: the VM is returned to the pool before the evaluation has finished
+          PutTwice      \* mutant: a failed evaluation returns its VM to the pool twice
 
 VARIABLES free, made, vmOf, pc, busy, ans, calls
 vars == <<free, made, vmOf, pc, busy, ans, calls>>
 None == "none"
 
-Init == /\ free = {} /\ made = {} /\ vmOf = [c \in Callers |-> None] /\ pc = [c \in Callers |-> "idle"]
+Init == /\ free = [v \in VMs |-> 0] /\ made = {} /\ vmOf = [c \in Callers |-> None] /\ pc = [c \in Callers |-> "idle"]
         /\ busy = [v \in VMs |-> FALSE] /\ ans = [c \in Callers |-> "none"] /\ calls = [c \in Callers |-> 0]
 
 Get(c) == /\ pc[c] = "idle" /\ calls[c] < MaxCalls
-          /\ \/ \E v \in free : vmOf' = [vmOf EXCEPT ![c] = v] /\ free' = free \ {v} /\ UNCHANGED made
+          /\ \/ \E v \in VMs : free[v] > 0 /\ vmOf' = [vmOf EXCEPT ![c] = v] /\ free' = [free EXCEPT ![v] = @ - 1] /\ UNCHANGED made
              \/ \E v \in VMs \ made : vmOf' = [vmOf EXCEPT ![c] = v] /\ made' = made \cup {v} /\ UNCHANGED free
           /\ pc' = [pc EXCEPT ![c] = "got"] /\ calls' = [calls EXCEPT ![c] = @ + 1]
           /\ UNCHANGED <<busy, ans>>
@@ -32,18 +36,28 @@ EvalEnd(c) == /\ pc[c] = "eval"
                  ELSE UNCHANGED <<busy, ans>>
               /\ pc' = [pc EXCEPT ![c] = IF PutEarly THEN "idle" ELSE "put"]
               /\ UNCHANGED <<free, made, vmOf, calls>>
-Put(c) == /\ pc[c] \in {"put", "putE"}
-          /\ free' = free \cup {vmOf[c]}
-          /\ pc' = [pc EXCEPT ![c] = IF pc[c] = "putE" THEN "eval" ELSE "idle"]
+\* the evaluation fails (the script throws after restoring its state): the caller's own error
+EvalFail(c) == /\ pc[c] = "eval" /\ ans[c] = "pending" /\ ~PutEarly
+               /\ busy' = [busy EXCEPT ![vmOf[c]] = FALSE] /\ ans' = [ans EXCEPT ![c] = "err"]
+               /\ pc' = [pc EXCEPT ![c] = IF PutTwice THEN "put2" ELSE "put"]
+               /\ UNCHANGED <<free, made, vmOf, calls>>
+Put(c) == /\ pc[c] \in {"put", "putE", "put2"}
+          /\ free' = [free EXCEPT ![vmOf[c]] = @ + 1]
+          /\ pc' = [pc EXCEPT ![c] = CASE pc[c] = "putE" -> "eval" [] pc[c] = "put2" -> "put" [] OTHER -> "idle"]
           /\ UNCHANGED <<made, vmOf, busy, ans, calls>>
-Drop == \E v \in free : free' = free \ {v} /\ UNCHANGED <<made, vmOf, pc, busy, ans, calls>>
+Drop == \E v \in VMs : free[v] > 0 /\ free' = [free EXCEPT ![v] = @ - 1] /\ UNCHANGED <<made, vmOf, pc, busy, ans, calls>>
 
-Next == Drop \/ \E c \in Callers : Get(c) \/ EvalStart(c) \/ EvalEnd(c) \/ Put(c)
+Next == Drop \/ \E c \in Callers : Get(c) \/ EvalStart(c) \/ EvalEnd(c) \/ EvalFail(c) \/ Put(c)
 Spec == Init /\ [][Next]_vars
 
 InEval(c) == pc[c] \in {"got", "eval", "put", "putE"} /\ ~(PutEarly /\ pc[c] = "idle")
 ExclusiveVM == \A c, d \in Callers : c # d /\ pc[c] \in {"got", "eval"} /\ pc[d] \in {"got", "eval"} => vmOf[c] # vmOf[d]
 \* "same answers as if issued one at a time": no evaluation ever observes another one's state
 SequentialAnswers == \A c \in Callers : ans[c] # "race"
-IdleVMsAreClean == \A v \in free : PutEarly \/ ~busy[v]
+IdleVMsAreClean == \A v \in VMs : free[v] > 0 => PutEarly \/ PutTwice \/ ~busy[v]
+\* a VM is never in the pool more often than once, and never while a caller holds it
+PoolIsASet == \A v \in VMs : /\ free[v] <= 1
+                              /\ free[v] = 1 /\ ~PutEarly => \A c \in Callers : pc[c] \in {"got", "eval", "put"} => vmOf[c] # v
+\* coverage witnesses (expected to be violated): failures and reuse after a failure are reachable
+NoFailure == \A c \in Callers : ans[c] # "err"
 ==============================================================================
